@@ -20,6 +20,8 @@ func c09CfgFor(extendedKids bool) kit.WorldCfg {
 	cfg := c09Cfg
 	// a child store over things with an index of its own (nullable unique index over its child-only field)
 	cfg.Children = []kit.ChildCfg{{Name: "kids", Parent: "things", UniqueExtra: true, Extended: extendedKids}}
+	// a link collection between the child store and targets; the targets-side symbol is declared against the parent store
+	cfg.Links = append(append([]kit.LinkCfg(nil), c09Cfg.Links...), kit.LinkCfg{A: "kids", FieldA: "klinks", B: "targets", FieldB: "kback", BackToParent: true})
 	// a store in which no entity was ever created has no entities bucket (its indexes can be corrupted all the same)
 	cfg.LazyBuckets = true
 	return cfg
@@ -31,6 +33,7 @@ var c09Cfg = kit.WorldCfg{
 		{Name: "targets", UniqueName: true, RolesIndex: true},
 		{Name: "owned", RefTo: "targets", RefWiring: kit.WireFkIndex},
 		{Name: "deps", RefTo: "things", RefWiring: kit.WireConstraintNone},
+		{Name: "cowned", RefTo: "targets", RefWiring: kit.WireFkIndexCascade}, // non-nullable as well; deleted with their target
 	},
 	Links: []kit.LinkCfg{{A: "things", FieldA: "tlinks", B: "targets", FieldB: "plinks"}},
 }
@@ -41,6 +44,7 @@ var c09IDs = map[string][]string{
 	"targets": {"id-tg1", "id-tg10", "id-tg"},
 	"owned":   {"id-ow1", "id-ow2", "id-ow3"},
 	"deps":    {"id-dp1", "id-dp2"},
+	"cowned":  {"id-co1", "id-co2"},
 }
 
 // Corruption is one raw edit of the database file made behind the API's back.
@@ -73,7 +77,7 @@ func c09OpGen(t *rapid.T, l string, m *kit.Model) kit.Op {
 		}
 		return op
 	}
-	stores := []string{"things", "things", "things", "targets", "targets", "owned", "deps", "kids", "kids"}
+	stores := []string{"things", "things", "things", "targets", "targets", "owned", "deps", "kids", "kids", "cowned"}
 	store := stores[rapid.IntRange(0, len(stores)-1).Draw(t, l+"_store")]
 	refsTo := func(s string) []*string {
 		out := []*string{}
@@ -98,7 +102,7 @@ func c09OpGen(t *rapid.T, l string, m *kit.Model) kit.Op {
 		u.Refs = append(refsTo("targets"), nil, kit.Sp("")) // an empty reference is stored but, like null, names nothing
 	case "targets":
 		u.Roles = []string{"role-a", "role-b", "role-c"}
-	case "owned":
+	case "owned", "cowned":
 		u.Refs = refsTo("targets")
 	case "deps":
 		u.Refs = append(refsTo("things"), nil, kit.Sp(""))
@@ -109,7 +113,8 @@ func c09OpGen(t *rapid.T, l string, m *kit.Model) kit.Op {
 var c09Kinds = []string{"unique-missing", "unique-extra-existing", "unique-extra-missing-id", "unique-wrong-target",
 	"set-missing-id", "set-missing-key", "set-extra-id", "set-extra-missing-id", "set-empty-key",
 	"fk-missing-backref", "fk-extra-backref", "fk-extra-backref-missing-id", "fk-dangling-nullable",
-	"link-one-sided", "link-dangling", "link-dangling-pair", "fk-missing-backref-bucket",
+	"link-one-sided", "link-dangling", "link-dangling-pair", "fk-missing-backref-bucket", "link-dangling-plain-parent",
+	"unfixable-fk-null-in-non-nullable", "unfixable-fk-dangling-non-nullable",
 	"unfixable-duplicate-unique", "unfixable-null-in-non-nullable"}
 
 func sortedIDs(m map[string]*kit.MEnt) []string {
@@ -316,6 +321,28 @@ func genCorruption(t *rapid.T, l string, kind string, m *kit.Model, used map[str
 			return c, false
 		}
 		c.Store, c.ID, c.Other = "things", id, "ghost-id-"+l
+	case "link-dangling-plain-parent":
+		// a target's link set into the child store names a thing that exists but has no child data (plain child store only)
+		for _, cc := range m.Cfg.Children {
+			if cc.Extended {
+				return c, false
+			}
+		}
+		tid, ok := pickFrom(sortedIDs(m.Ents["targets"]))
+		if !ok {
+			return c, false
+		}
+		var plain []string
+		for _, id := range sortedIDs(m.Ents["things"]) {
+			if len(m.Ents["things"][id].Kid) == 0 && id != tid {
+				plain = append(plain, id)
+			}
+		}
+		id, ok2 := pickFrom(plain)
+		if !ok2 {
+			return c, false
+		}
+		c.Store, c.ID, c.Other = "targets", tid, id
 	case "link-dangling-pair":
 		// two dangling links that are neighbours in key order inside one entity's link set
 		id, ok := pickFrom(sortedIDs(m.Ents["things"]))
@@ -388,6 +415,17 @@ func genCorruption(t *rapid.T, l string, kind string, m *kit.Model, used map[str
 			return c, false
 		}
 		c.Store, c.ID, c.Value = storeU, id, m.Ents[storeU][id].Name
+	case "unfixable-fk-null-in-non-nullable", "unfixable-fk-dangling-non-nullable":
+		// the reference of a record whose store declares it non-nullable (plain fk index, or the cascading one)
+		store := []string{"owned", "cowned"}[rapid.IntRange(0, 1).Draw(t, l+"_fkStore")]
+		id, ok := pickFrom(sortedIDs(m.Ents[store]))
+		if !ok {
+			return c, false
+		}
+		c.Store, c.ID = store, id
+		if kind == "unfixable-fk-dangling-non-nullable" {
+			c.Other = "ghost-id-" + l
+		}
 	}
 	return c, true
 }
@@ -413,12 +451,14 @@ func (c Corruption) mustMention() [][]string {
 		return [][]string{{c.ID, c.Value}}
 	case "set-empty-key":
 		return [][]string{{c.Value}}
-	case "fk-missing-backref", "fk-extra-backref", "fk-extra-backref-missing-id", "fk-dangling-nullable", "link-one-sided", "link-dangling", "link-dangling-pair", "fk-missing-backref-bucket":
+	case "fk-missing-backref", "fk-extra-backref", "fk-extra-backref-missing-id", "fk-dangling-nullable", "link-one-sided", "link-dangling", "link-dangling-pair", "fk-missing-backref-bucket", "link-dangling-plain-parent":
 		return [][]string{{c.ID, c.Other}}
 	case "unfixable-duplicate-unique":
 		return [][]string{{c.ID, c.Other, c.Value}}
-	case "unfixable-null-in-non-nullable":
+	case "unfixable-null-in-non-nullable", "unfixable-fk-null-in-non-nullable":
 		return [][]string{{c.ID}}
+	case "unfixable-fk-dangling-non-nullable":
+		return [][]string{{c.ID, c.Other}}
 	}
 	return nil
 }
@@ -551,6 +591,8 @@ func (c Corruption) apply(tx *bbolt.Tx, m *kit.Model) error {
 		return mustBucket(tx, false, "root", "targets", c.Other, "plinks").Delete(typed(c.ID))
 	case "link-dangling":
 		return mustBucket(tx, true, "root", "things", c.ID, "tlinks").Put(typed(c.Other), nil)
+	case "link-dangling-plain-parent":
+		return mustBucket(tx, true, "root", "targets", c.ID, "kback").Put(typed(c.Other), nil)
 	case "link-dangling-pair":
 		b := mustBucket(tx, true, "root", "things", c.ID, "tlinks")
 		if err := b.Put(typed(c.Other), nil); err != nil {
@@ -568,6 +610,22 @@ func (c Corruption) apply(tx *bbolt.Tx, m *kit.Model) error {
 		return mustBucket(tx, false, "root", c.Store, c.ID).Put([]byte(kit.FName), typed(c.Value))
 	case "unfixable-null-in-non-nullable":
 		return mustBucket(tx, false, "root", c.Store, c.ID).Put([]byte(kit.FName), []byte{byte(boltz.TypeNil)})
+	case "unfixable-fk-null-in-non-nullable", "unfixable-fk-dangling-non-nullable":
+		// the record's reference becomes null / names a target that does not exist; its old back-reference goes too
+		e := m.Ents[c.Store][c.ID]
+		val := []byte{byte(boltz.TypeNil)}
+		if c.Other != "" {
+			val = typed(c.Other)
+		}
+		if err := mustBucket(tx, false, "root", c.Store, c.ID).Put([]byte(kit.FRef), val); err != nil {
+			return err
+		}
+		if e.Ref != nil && *e.Ref != "" {
+			if bb := mustBucket(tx, false, "root", "targets", *e.Ref, "refs_"+c.Store); bb != nil {
+				_ = bb.Delete(typed(c.ID))
+			}
+		}
+		return nil
 	}
 	return fmt.Errorf("unknown corruption %s", c.Kind)
 }
@@ -595,7 +653,7 @@ func genC09(t *rapid.T) c09Case {
 			lt := fmt.Sprintf("%s_%d", l, try)
 			kind := c09Kinds[rapid.IntRange(0, len(c09Kinds)-1).Draw(t, lt+"_kind")]
 			if strings.HasPrefix(kind, "unfixable") && rapid.IntRange(0, 2).Draw(t, lt+"_keepUnfixable") > 0 {
-				kind = c09Kinds[rapid.IntRange(0, len(c09Kinds)-3).Draw(t, lt+"_kind2")]
+				kind = c09Kinds[rapid.IntRange(0, len(c09Kinds)-5).Draw(t, lt+"_kind2")]
 			}
 			cor, ok = genCorruption(t, lt, kind, m, used)
 		}
